@@ -1,8 +1,7 @@
 use std::{collections::BTreeMap, fmt, iter};
 
-use bit_vec::BitVec;
 use enumflags2::BitFlags;
-use bytes::BytesMut;
+use bytes::{Bytes, BytesMut};
 #[allow(unused_imports)]
 use log::{debug, error, info, trace, warn};
 
@@ -20,10 +19,15 @@ use crate::{
 };
 
 // This is for the assembly of a single object
+//
+// Received fragments are kept as such, until all of them have arrived. The
+// whole sample is put together only then. This way the memory we use is
+// proportional to the amount of data actually received, and not to the
+// data_size claimed by whatever DATAFRAG happens to arrive first.
 struct AssemblyBuffer {
-  buffer_bytes: BytesMut,
-  fragment_count: usize,
-  received_bitmap: BitVec,
+  data_size: usize,      // total size of the sample, as claimed by the first DATAFRAG
+  fragment_count: usize, // how many fragments there should be
+  fragments: BTreeMap<usize, Bytes>, // received fragments, indexing from 0
 
   #[allow(dead_code)] // TODO: Purpose is to use this later for e.g.
   // garbage collection, in case some buffer is not completed within reasonable time.
@@ -45,26 +49,22 @@ impl AssemblyBuffer {
     assert!(fragment_size > 0); // This is validated at DataFrag deserializer
                                 // Note: Technically RTPS spec allows fragment_size == 0.
 
-    let mut buffer_bytes = BytesMut::with_capacity(data_size);
-    buffer_bytes.resize(data_size, 0); // TODO: Can we replace this with faster (and unsafer) .set_len and live with
-                                       // uninitialized data?
-
     let fragment_count = usize::from(datafrag.total_number_of_fragments());
 
     let now = Timestamp::now();
 
     Self {
-      buffer_bytes,
+      data_size,
       fragment_count,
-      received_bitmap: BitVec::from_elem(fragment_count, false),
+      fragments: BTreeMap::new(),
       created_time: now,
       modified_time: now,
     }
   }
 
   pub fn insert_frags(&mut self, datafrag: &DataFrag, frag_size: u16) {
-    // TODO: Sanity checks? E.g. datafrag.fragment_size == frag_size
-    // Or is this even guaranteed? Can Writer vary fragment size?
+    // Caller (FragmentAssembler) has checked that the fragment numbers are
+    // within this sample, and that fragment and data sizes are the expected ones.
 
     let frag_size = usize::from(frag_size); // - payload_header;
     let frags_in_submessage = usize::from(datafrag.fragments_in_submessage);
@@ -85,62 +85,45 @@ impl AssemblyBuffer {
       datafrag.data_size
     );
 
-    // unwrap: u32 should fit into usize
-    let from_byte = start_frag_from_0 * frag_size;
-
-    // Last fragment might be smaller than fragment size
-    // Copy reported number of fragments, or as much data as there is, whichever
-    // ends first.
-    // And clamp to assembly buffer length to avoid buffer overrun.
-    let to_before_byte = std::cmp::min(
-      from_byte
-        + std::cmp::min(
-          frags_in_submessage * frag_size,
-          datafrag.serialized_payload.len(),
-        ),
-      self.buffer_bytes.len(),
-    );
-    let payload_size = to_before_byte - from_byte;
-
-    // sanity check data size
-    // Last fragment may be smaller than frags_in_submessage * frag_size
-    let last_frag_in_submessage = start_frag_from_0 + frags_in_submessage;
-    if last_frag_in_submessage < self.fragment_count
-      && datafrag.serialized_payload.len() < frags_in_submessage * frag_size
-    {
-      error!(
-        "Received DATAFRAG too small. fragment_starting_num={} out of fragment_count={}, \
-         frags_in_submessage={}, frag_size={} but payload length = {}. Original data_size={}",
-        fragment_starting_num,
-        self.fragment_count,
-        frags_in_submessage,
-        frag_size,
-        datafrag.serialized_payload.len(),
-        datafrag.data_size,
-      );
-    }
-
-    debug!(
-      "insert_frags: from_byte = {:?}, to_before_byte = {:?}",
-      from_byte, to_before_byte
-    );
-
-    debug!(
-      "insert_frags: dataFrag.serializedPayload.len = {:?}",
-      datafrag.serialized_payload.len()
-    );
-
-    self.buffer_bytes.as_mut()[from_byte..to_before_byte]
-      .copy_from_slice(&datafrag.serialized_payload[..payload_size]);
-
     for f in 0..frags_in_submessage {
-      self.received_bitmap.set(start_frag_from_0 + f, true);
+      let frag_index = start_frag_from_0 + f;
+      // Last fragment of the sample might be smaller than fragment size
+      let expected_len = std::cmp::min(frag_size, self.data_size - frag_index * frag_size);
+      let from_byte = f * frag_size; // in this submessage
+      if datafrag.serialized_payload.len() < from_byte + expected_len {
+        error!(
+          "Received DATAFRAG too small. fragment_starting_num={} out of fragment_count={}, \
+           frags_in_submessage={}, frag_size={} but payload length = {}. Original data_size={}",
+          fragment_starting_num,
+          self.fragment_count,
+          frags_in_submessage,
+          frag_size,
+          datafrag.serialized_payload.len(),
+          datafrag.data_size,
+        );
+        break; // The rest of the fragments are not there.
+      }
+      self.fragments.insert(
+        frag_index,
+        datafrag
+          .serialized_payload
+          .slice(from_byte..from_byte + expected_len),
+      );
     }
     self.modified_time = Timestamp::now();
   }
 
   pub fn is_complete(&self) -> bool {
-    self.received_bitmap.all() // return if all are received
+    self.fragments.len() >= self.fragment_count // return if all are received
+  }
+
+  // Call only when complete
+  fn assemble(self) -> Bytes {
+    let mut buffer_bytes = BytesMut::with_capacity(self.data_size);
+    for frag in self.fragments.values() {
+      buffer_bytes.extend_from_slice(frag);
+    }
+    buffer_bytes.freeze()
   }
 }
 
@@ -202,12 +185,12 @@ impl FragmentAssembler {
       return None;
     }
     if let Some(existing) = self.assembly_buffers.get(&writer_sn) {
-      if existing.buffer_bytes.len() != datafrag.data_size as usize {
+      if existing.data_size != datafrag.data_size as usize {
         warn!(
           "Discarding DATAFRAG sn={:?}: data_size={} does not match assembly in progress ({})",
           writer_sn,
           datafrag.data_size,
-          existing.buffer_bytes.len()
+          existing.data_size
         );
         return None;
       }
@@ -225,7 +208,7 @@ impl FragmentAssembler {
       if let Some(assembly_buffer) = self.assembly_buffers.remove(&writer_sn) {
         // Return what we have assembled.
         let serialized_data_or_key =
-          SerializedPayload::from_bytes(&assembly_buffer.buffer_bytes.freeze()).map_or_else(
+          SerializedPayload::from_bytes(&assembly_buffer.assemble()).map_or_else(
             |e| {
               error!("Deserializing SerializedPayload from DATAFRAG: {:?}", &e);
               None
@@ -280,7 +263,7 @@ impl FragmentAssembler {
       None => Box::new(iter::empty()),
       Some(ab) => {
         let iter = (0..ab.fragment_count)
-          .filter(move |f| !ab.received_bitmap.get(*f).unwrap_or(true))
+          .filter(move |f| !ab.fragments.contains_key(f))
           .map(|f| FragmentNumber::new((f + 1).try_into().unwrap()));
         Box::new(iter)
       }
